@@ -178,6 +178,7 @@ class Stats:
         self.samples = []
         self.per_test = collections.defaultdict(collections.Counter)
         self.raised_examples = {}
+        self.prims = collections.Counter()
 
     def merge(self, o):
         self.status.update(o.status)
@@ -192,6 +193,7 @@ class Stats:
             self.per_test[k].update(v)
         for k, v in o.raised_examples.items():
             self.raised_examples.setdefault(k, v)
+        self.prims.update(o.prims)
 
 
 def _record(stats, test, out, case):
@@ -309,16 +311,41 @@ def _jsonable(o):
         return repr(o)
 
 
+_RECORDED = collections.Counter()
+
+
+def install_primitive_recorder():
+    """Evidence only: count which primitives get a VJP / JVP node built, by wrapping the node constructors in this process."""
+    from autograd import core
+
+    if getattr(core, "_vh_recorder", False):
+        return
+    core._vh_recorder = True
+    for cls, tag in ((core.VJPNode, "vjp"), (core.JVPNode, "jvp")):
+        orig = cls.__init__
+
+        def init(self, value, fun, args, kwargs, parent_argnums, parents, _orig=orig, _tag=tag):
+            _RECORDED[_tag + ":" + getattr(fun, "__name__", repr(fun))] += 1
+            return _orig(self, value, fun, args, kwargs, parent_argnums, parents)
+
+        cls.__init__ = init
+
+
 def _worker(task):
     tidx, shard, n = task
     c = _CTX
     _limit_memory()
+    if c.get("record_primitives"):
+        install_primitive_recorder()
+        _RECORDED.clear()
     test = c["tests"][tidx]
     t0 = time.time()
     try:
         stats, failures, harness = run_shard(test, shard, n, c["tier"], c["seed"], c["known"])
     except BaseException:
         return tidx, shard, None, [], traceback.format_exc(), time.time() - t0
+    if c.get("record_primitives"):
+        stats.prims.update(_RECORDED)
     return tidx, shard, stats, failures, harness, time.time() - t0
 
 
@@ -400,7 +427,7 @@ def run_property(prop, tier, seed, only=None):
             tasks.append((i, s, per))
     # biggest first for better packing
     tasks.sort(key=lambda t: -t[2])
-    _CTX.update(tests=tests, tier=tier, seed=seed, known=known_all)
+    _CTX.update(tests=tests, tier=tier, seed=seed, known=known_all, record_primitives=getattr(prop, "record_primitives", False))
     found = {}
     slow = []
     if tasks:
